@@ -428,6 +428,12 @@ func (c *Ctx) call(x *ast.CallExpr, in []cst, deferred, goStmt bool) []cst {
 		if !deferred && !goStmt && c.spec.InlineLit != nil && c.spec.InlineLit(c, lit, x) {
 			return c.inlineLit(lit, in)
 		}
+		if !deferred && !goStmt {
+			// an immediately invoked literal runs synchronously in place: its statements are part of
+			// this path, its returns end the literal only, its deferred calls run when it ends
+			in = c.emit(&Event{Kind: EvFuncLit, Node: lit, Pos: lit.Pos(), Lit: lit}, in)
+			return c.inlineFrame(lit.Body, in)
+		}
 		in = c.emit(&Event{Kind: EvFuncLit, Node: lit, Pos: lit.Pos(), Lit: lit}, in)
 		return c.emit(&Event{Kind: EvCall, Node: x, Pos: x.Pos(), Call: x, Deferred: deferred, Go: goStmt}, in)
 	}
@@ -472,9 +478,21 @@ func (c *Ctx) call(x *ast.CallExpr, in []cst, deferred, goStmt bool) []cst {
 	return out
 }
 
+// DefaultInline decides which callees are simulated in place when a rule did not ask for
+// inlining itself: the rules package sets it to "functions that did not exist when the
+// checker's tables were confirmed" (extracted helpers).
+var DefaultInline func(p *prog.Prog, fi *prog.FuncInfo) bool
+
 // inlineCallee simulates the body of a statically resolved same-package function in place.
 func (c *Ctx) inlineCallee(fn *types.Func, in []cst) []cst {
-	if !c.spec.InlineCalls || len(in) == 0 || c.Depth >= 2 || fn.Pkg() == nil || fn.Pkg() != c.rootPkg {
+	if len(in) == 0 || c.Depth >= 3 || fn.Pkg() == nil || fn.Pkg() != c.rootPkg {
+		return in
+	}
+	if !c.spec.InlineCalls {
+		if DefaultInline == nil || !DefaultInline(c.P, c.P.FuncInfoOf(fn)) {
+			return in
+		}
+	} else if c.Depth >= 2 {
 		return in
 	}
 	if c.spec.InlineFunc != nil && !c.spec.InlineFunc(c, fn) {
@@ -492,16 +510,25 @@ func (c *Ctx) inlineCallee(fn *types.Func, in []cst) []cst {
 	if root, ok := c.Fn.(*ast.FuncDecl); ok && root == fi.Decl {
 		return in // direct recursion into the root
 	}
-	savedReturns, savedInfo := c.returns, c.Info
-	c.returns = nil
+	savedInfo := c.Info
 	c.Info = fi.Pkg.TypesInfo
-	c.Depth++
 	c.stack = append(c.stack, fn)
+	out := c.inlineFrame(fi.Decl.Body, in)
+	c.stack = c.stack[:len(c.stack)-1]
+	c.Info = savedInfo
+	return out
+}
+
+// inlineFrame simulates a body as a nested activation: returns end the body only and are not
+// shown to the rule, deferred calls registered in it run (last first) when it ends.
+func (c *Ctx) inlineFrame(body *ast.BlockStmt, in []cst) []cst {
+	savedReturns := c.returns
+	c.returns = nil
+	c.Depth++
 	c.pending = append(c.pending, nil)
-	fl := c.stmt(fi.Decl.Body, in, "")
+	fl := c.stmt(body, in, "")
 	out := append(fl.out, c.returns...)
 	out = dedup(out)
-	// deferred calls of the callee, last registered first
 	defs := c.pending[len(c.pending)-1]
 	c.pending = c.pending[:len(c.pending)-1]
 	c.Depth--
@@ -513,8 +540,7 @@ func (c *Ctx) inlineCallee(fn *types.Func, in []cst) []cst {
 		c.pending = c.pending[:len(c.pending)-1]
 		c.Depth--
 	}
-	c.stack = c.stack[:len(c.stack)-1]
-	c.returns, c.Info = savedReturns, savedInfo
+	c.returns = savedReturns
 	return out
 }
 
@@ -874,8 +900,16 @@ func (c *Ctx) switchStmt(x *ast.SwitchStmt, in []cst, label string) flow {
 				t, f = c.cond(e, cur)
 			} else {
 				cur = c.expr(e, cur)
-				syn := &ast.BinaryExpr{X: x.Tag, OpPos: e.Pos(), Op: token.EQL, Y: e}
-				t, f = c.atom(syn, cur)
+				if tv, ok := c.Info.Types[e]; ok && tv.Value != nil && (tv.Value.String() == "true" || tv.Value.String() == "false") {
+					// `switch b { case true: / case false: }` is a condition on b
+					t, f = c.cond(x.Tag, cur)
+					if tv.Value.String() == "false" {
+						t, f = f, t
+					}
+				} else {
+					syn := &ast.BinaryExpr{X: x.Tag, OpPos: e.Pos(), Op: token.EQL, Y: e}
+					t, f = c.atom(syn, cur)
+				}
 			}
 			bodies[i] = append(bodies[i], t...)
 			cur = f
